@@ -16,7 +16,7 @@
    Filter::matches for every filter of the filter vector (C11 is not repeated here). *)
 From Coq Require Import List NArith Bool Permutation.
 From AdltV Require Import Base.Res Base.MachInt Merge.Multi Merge.MultiProofs Filter.Sets Lifecycle.Model
-     Convert.Select Convert.SelectProofs Exec.C14.
+     Convert.Select Convert.SelectProofs Convert.OrderProofs Convert.SortInstance Exec.C14.
 Import ListNotations.
 Open Scope N_scope.
 
@@ -87,25 +87,76 @@ Theorem C14_executable_run_is_a_run : forall sorter args o r,
   InRange args -> o_sort o = false -> convert_first args o = Ok (Some r) -> Convert sorter args o (Some r).
 Proof. exact convert_first_Convert. Qed.
 
+(* --sort is buffer_sort_messages(.., 3, 20 s) (model of C10, any lifecycle table contents, any heap tie-breaking):
+   it only permutes, so the selection theorem applies to it *)
+Theorem C14_sort_stage_is_buffer_sort : forall l out, sorter_bs l out -> Permutation out l.
+Proof. exact sorter_bs_perm. Qed.
+
+Theorem C14_convert_selects_exactly_buffer_sort : forall args o r,
+  InRange args -> Convert sorter_bs args o (Some r) ->
+  exists inp em,
+    Input args inp /\ emitted o r em /\
+    (o_sort o = false -> em = filter (selected o) inp) /\
+    Permutation em (filter (selected o) inp) /\ NoDup (map c_index em) /\
+    r_processed r = N.of_nat (length inp) /\ map c_index inp = nseq 0 (length inp).
+Proof. exact (convert_selects_exactly sorter_bs sorter_bs_perm). Qed.
+
+(* Naming the input files in a different order gives the same result when the files' first messages have distinct
+   reception times ([DistinctFirst]: two named files whose first messages have the same reception time are the
+   same file).  No hypothesis about later reception-time ties is needed: the list of streams handed to the heap
+   merge is literally the same list (same streams, same order, each with the same files in the same order), so
+   every run of the one command line is a run of the other and vice versa; the binary heap of std is a
+   deterministic data structure, i.e. the same list gives the same run (trusted, and compared by the harness). *)
+Theorem C14_file_order_irrelevant : forall args args',
+  Permutation args args' -> DistinctFirst args ->
+  streams_of args = streams_of args' /\
+  (forall merged, Merged args merged <-> Merged args' merged) /\
+  (forall sorter o res, Convert sorter args o res <-> Convert sorter args' o res).
+Proof.
+  intros args args' P Hd. pose proof (file_order_irrelevant _ _ P Hd) as E. split; [exact E|]. split.
+  - intros m. unfold Merged. rewrite E. reflexivity.
+  - intros sorter o res. exact (convert_file_order_irrelevant sorter _ _ o res P Hd).
+Qed.
+
+(* Before the repair (commit 8cea3e4) the streams went into the merge in the order in which the partition created
+   them, i.e. in the order of the file arguments: two files of different ECUs, first messages at different times. *)
+Definition streams_unordered (args : list arg) : list fstream := map normalize (partition_files (files_ok args)).
+Theorem C14_unordered_streams_depend_on_arg_order :
+  exists args args', Permutation args args' /\ DistinctFirst args /\
+                     streams_unordered args <> streams_unordered args' /\ streams_of args = streams_of args'.
+Proof.
+  set (fa := mk_file (0, 1, [(1, 1, 1000, 0, true, false, [])])). set (fb := mk_file (1, 1, [(2, 2, 2000, 0, true, false, [])])).
+  exists [Some fa; Some fb], [Some fb; Some fa].
+  assert (P : Permutation [Some fa; Some fb] [Some fb; Some fa]) by apply perm_swap.
+  assert (Hd : DistinctFirst [Some fa; Some fb]).
+  { intros f g mf mg Hf Hg Ef Eg Hrt. cbn in Hf, Hg.
+    destruct Hf as [<-|[<-|[]]], Hg as [<-|[<-|[]]]; try reflexivity;
+      vm_compute in Ef, Eg; inversion Ef; inversion Eg; subst; vm_compute in Hrt; discriminate. }
+  split; [exact P|]. split; [exact Hd|]. split; [vm_compute; discriminate|exact (file_order_irrelevant _ _ P Hd)].
+Qed.
+
 (* non-vacuity: three files (ECU 1 in two consecutive files, ECU 2 in a third, named out of order and one of
    them twice), window 1..5, lifecycle 2 only, one positive and one disabled negative filter, -s and -o:
    the hypotheses hold and exactly the messages with index 2 and 5 of the 7 input messages come out (three
    lifecycles: ECU 1 boots again in its second file) *)
 Definition nv_files : list file := map mk_file
-  [(0, 3, [(10, 1, 1000000000000, 0, [true; true]); (11, 1, 1000001000000, 1000000, [false; true]);
-           (12, 1, 1000002000000, 2000000, [true; true])]);
-   (1, 2, [(13, 1, 1000030000000, 0, [true; true]); (14, 1, 1000031000000, 1000000, [true; false])]);
-   (2, 2, [(20, 2, 1000001500000, 0, [true; true]); (21, 2, 1000030500000, 29000000, [true; true])])].
+  [(0, 3, [(10, 1, 1000000000000, 0, true, false, [true; true]); (11, 1, 1000001000000, 1000000, true, false, [false; true]);
+           (12, 1, 1000002000000, 2000000, true, false, [true; true])]);
+   (1, 2, [(13, 1, 1000030000000, 0, true, false, [true; true]); (14, 1, 1000031000000, 1000000, true, false, [true; false])]);
+   (2, 2, [(20, 2, 1000001500000, 0, true, false, [true; true]); (21, 2, 1000030500000, 29000000, true, false, [true; true])])].
 Definition nv_args : list arg := mk_args nv_files [Some 1; Some 2; Some 0; Some 1].
 Definition nv_opts : opts := mk_opts (1, 5, [2], [(0, true); (1, false)], false, 3, true).
 Example C14_nonvacuous :
-  InRange nv_args /\
+  InRange nv_args /\ DistinctFirst nv_args /\
   exists r, Convert (fun l out => Permutation out l) nv_args nv_opts (Some r) /\
             map (fun x => (c_index x, c_uid x, c_lc x)) (r_screen r) = [(2, 20, 2); (5, 21, 2)] /\
             r_file r = Some (r_screen r) /\ r_processed r = 7.
 Proof.
   assert (Hb : InRange nv_args) by (vm_compute; discriminate).
-  split; [exact Hb|].
+  split; [exact Hb|]. split.
+  { intros f g mf mg Hf Hg Ef Eg Hrt. cbn in Hf, Hg.
+    destruct Hf as [<-|[<-|[<-|[<-|[]]]]], Hg as [<-|[<-|[<-|[<-|[]]]]]; try reflexivity;
+      vm_compute in Ef, Eg; inversion Ef; inversion Eg; subst; vm_compute in Hrt; discriminate. }
   destruct (convert_first nv_args nv_opts) as [[r|]| |] eqn:E; try (vm_compute in E; discriminate).
   exists r. split; [apply convert_first_Convert; [exact Hb|reflexivity|exact E]|].
   vm_compute in E. inversion E; subst r. vm_compute. auto.
@@ -118,4 +169,8 @@ Print Assumptions C14_selected_meaning.
 Print Assumptions C14_input_is_the_files.
 Print Assumptions C14_no_input_file.
 Print Assumptions C14_executable_run_is_a_run.
+Print Assumptions C14_sort_stage_is_buffer_sort.
+Print Assumptions C14_convert_selects_exactly_buffer_sort.
+Print Assumptions C14_file_order_irrelevant.
+Print Assumptions C14_unordered_streams_depend_on_arg_order.
 Print Assumptions C14_nonvacuous.
